@@ -139,10 +139,20 @@ class PyDriver:
             lo, la = self.a5.cell_to_lonlat(int(t[1]))
             return 'ok %d %d' % (fbits(lo), fbits(la))
         if op == 'c2b':
-            opts = {'closed_ring': t[2] == '1'}
-            if t[3] != '-':
-                opts['segments'] = int(t[3])
-            ring = self.a5.cell_to_boundary(int(t[1]), opts)
+            # option glue: `-` = key omitted, `x` = no options argument at all, `none` / `auto` = the two spellings of the automatic rule
+            if t[2] == 'x' and t[3] == 'x':
+                ring = self.a5.cell_to_boundary(int(t[1]))
+            else:
+                opts = {}
+                if t[2] in ('0', '1'):
+                    opts['closed_ring'] = t[2] == '1'
+                if t[3] == 'none':
+                    opts['segments'] = None
+                elif t[3] == 'auto':
+                    opts['segments'] = 'auto'
+                elif t[3] not in ('-', 'x'):
+                    opts['segments'] = int(t[3])
+                ring = self.a5.cell_to_boundary(int(t[1]), opts)
             return 'ok %d' % len(ring) + ''.join(' %d %d' % (fbits(a), fbits(b)) for a, b in ring)
         if op == 'pent':
             from a5.core.tiling import get_pentagon_vertices
